@@ -4,6 +4,7 @@ package xmpp
 
 import (
 	"crypto/tls"
+	"errors"
 	"fmt"
 	"strings"
 	"testing"
@@ -26,6 +27,9 @@ type c03cfg struct {
 	// afterFailed: the same Client made an attempt before, which the server failed at one step (a free choice
 	// among c03failures); the attempt under test must be judged on its own answers only
 	afterFailed bool
+	// writeFault: every answer of the server is the positive one, but the connection breaks for writing at the
+	// client's k-th write (k a free choice): whatever the client was about to send, Connect must report an error
+	writeFault bool
 }
 
 // (step, answer) pairs that fail the earlier attempt of an afterFailed scenario
@@ -37,6 +41,9 @@ func (c c03cfg) name() string {
 		c.insecure, c.resource, c.sm, c.resumable, c.starttls, c.session, c.smAdv)
 	if c.afterFailed {
 		n += "/after-failed-attempt"
+	}
+	if c.writeFault {
+		n += "/write-fault"
 	}
 	return n
 }
@@ -97,9 +104,16 @@ func c03body(sc c03cfg) func() {
 		if sc.afterFailed {
 			failure = c03failures[vrt.ChooseFree("earlier-attempt-fails-at", len(c03failures))]
 		}
+		faultAt := -1
+		if sc.writeFault {
+			faultAt = vrt.ChooseFree("write-fails-at", 12)
+		}
 		listen(w, "example.org:5222", func(k int) *negCfg {
 			n := &negCfg{domain: "example.org", starttls: sc.starttls, cert: "valid", mechs: []string{"PLAIN"},
 				session: sc.session, sm: sc.smAdv, pick: explorePick}
+			if sc.writeFault {
+				n.pick = defaultPick
+			}
 			if k < last && sc.afterFailed {
 				// earlier attempt: a server that offers everything (mandatory session, stream management) whatever the
 				// connection under test will offer - what was advertised then says nothing about now -, one step failed
@@ -133,6 +147,21 @@ func c03body(sc c03cfg) func() {
 			}
 			return n
 		}, &recs, nil)
+		if sc.writeFault {
+			l := w.Listeners["example.org:5222"]
+			accept := l.Accept
+			l.Accept = func(k int, c *vnet.Conn) (func(), error) {
+				nw := 0
+				c.Peer().WriteFault = func(_ *vnet.Conn, p []byte) (int, error) {
+					nw++
+					if nw > faultAt {
+						return 0, errors.New("write: broken pipe")
+					}
+					return -1, nil
+				}
+				return accept(k, c)
+			}
+		}
 		sm := sc.sm || sc.resumable
 		cl, cfg, err := newTestClient(sc.insecure, sc.resource, sm, sc.resumable,
 			func(err error) { vrt.Log("errorhandler") },
@@ -240,12 +269,12 @@ func c03verdict(e *vrt.Exec) {
 	if ok && !mand {
 		vrt.Fail("C03|success-despite-failure|"+missing, "Connect returned nil although %s (server steps %v)", missing, r.Steps)
 	}
-	if !ok && !mand && r.FailStep == "" && (sc.insecure || sc.starttls != "absent") {
+	if !ok && !mand && r.FailStep == "" && (sc.insecure || sc.starttls != "absent") && !sc.writeFault {
 		// the server answered every request with its success answer and refused nothing, TLS was available if the
 		// client wanted it: the client gave up on its own (what it asked for up to then: r.Requests)
 		vrt.Fail("C03|gave-up-although-server-completed-every-step|last="+lastStep(r), "Connect returned %v although the server never refused anything (server steps %v, client requests %v)", out.connectErr, r.Steps, r.Requests)
 	}
-	if !ok && mand {
+	if !ok && mand && !sc.writeFault { // (with a write fault the initial presence may be what could not be written)
 		vrt.Fail("C03|error-despite-success|last="+lastStep(r), "Connect returned %v although every mandatory step succeeded (server steps %v)", out.connectErr, r.Steps)
 	}
 	est := 0
@@ -304,12 +333,20 @@ func TestVerifC03(t *testing.T) {
 										continue
 									}
 								}
-								sc := c03cfg{insecure, resource, sm, resumable, starttls, session, smAdv, false}
+								sc := c03cfg{insecure, resource, sm, resumable, starttls, session, smAdv, false, false}
 								scs = append(scs, hx.Scenario{Name: sc.name(), Opt: vrt.Options{Bound: thoroughBound(1)}, Body: c03body(sc), Verdict: c03verdict})
 							}
 						}
 					}
 				}
+			}
+		}
+	}
+	for _, sm := range []bool{false, true} {
+		for _, starttls := range []string{"absent", "required"} {
+			for _, resource := range []bool{false, true} {
+				sc := c03cfg{insecure: true, resource: resource, sm: sm, starttls: starttls, session: "mandatory", smAdv: true, writeFault: true}
+				scs = append(scs, hx.Scenario{Name: sc.name(), Opt: vrt.Options{Bound: 0}, Body: c03body(sc), Verdict: c03verdict})
 			}
 		}
 	}
